@@ -1804,7 +1804,13 @@ impl SocketAddress for unix::net::SocketAddr {
     }
 
     unsafe fn init(storage: MaybeUninit<Self::Storage>, length: u32) -> Self {
-        debug_assert!(length as usize >= size_of::<libc::sa_family_t>());
+        if (length as usize) < size_of::<libc::sa_family_t>() {
+            // For unnamed addresses the kernel can report a length of zero,
+            // e.g. for the sender of a datagram in `recvfrom(2)`, in which
+            // case nothing is written to `storage`.
+            // SAFETY: unnamed (zero length) address is valid.
+            return unix::net::SocketAddr::from_pathname("").unwrap();
+        }
         // SAFETY: only creating a pointer to the field.
         let storage = unsafe { ptr::addr_of!((*storage.as_ptr()).address) };
         let family = unsafe { ptr::addr_of!((*storage).sun_family).read() };
